@@ -31,7 +31,9 @@ type c03Case struct {
 	Seed      uint64 `json:"seed"`
 	Chunks    int    `json:"chunks"` // fs layer: number of Write calls
 	BadLevel  bool   `json:"bad_level"`
-	Repeat    int    `json:"repeat,omitempty"` // codec layer: number of repeated encryptions compared
+	Repeat    int    `json:"repeat,omitempty"`      // codec layer: number of repeated encryptions compared
+	FileSrc   bool   `json:"file_source,omitempty"` // ops layer: members come from real *os.File sources, as the CLI passes them
+	TapeLike  bool   `json:"tape_like_writer,omitempty"`
 }
 
 func drawContentSize(t *rapid.T, rs int) int {
@@ -152,10 +154,14 @@ func c03Codec(f failer, cfg world.Cfg, c c03Case) {
 	}
 }
 
-func c03World(f failer, cfg world.Cfg) *world.World {
+func c03World(f failer, cfg world.Cfg) *world.World { return c03WorldOpts(f, cfg, false) }
+
+func c03WorldOpts(f failer, cfg world.Cfg, tapeLike bool) *world.World {
 	var w *world.World
 	var err error
-	checkObs(f, hist.Call("New", func() { w, err = world.New(cfg, world.Opts{Dir: world.NewDir("c03")}) }), "construct")
+	checkObs(f, hist.Call("New", func() {
+		w, err = world.New(cfg, world.Opts{Dir: world.NewDir("c03"), TapeLikeWriter: tapeLike})
+	}), "construct")
 	if err != nil || w.InitErr != nil {
 		failf(f, "cannot build world: %v %v", err, w.InitErr)
 	}
@@ -251,7 +257,11 @@ func firstDiff(a, b []byte) int {
 }
 
 func c03Ops(f failer, cfg world.Cfg, c c03Case) {
-	w := c03World(f, cfg)
+	if c.FileSrc {
+		hist.FileBackedSources = world.NewDir("src")
+		defer func() { os.RemoveAll(hist.FileBackedSources); hist.FileBackedSources = "" }()
+	}
+	w := c03WorldOpts(f, cfg, c.TapeLike)
 	defer func() { w.Close(); os.RemoveAll(w.Opts.Dir) }()
 	content := hist.Bytes(c.Size, c.Dist, c.Seed)
 	r := &hist.Runner{Cfg: cfg, Dir: w.Opts.Dir, W: w, Opts: w.Opts}
@@ -294,7 +304,7 @@ func c03Ops(f failer, cfg world.Cfg, c c03Case) {
 }
 
 func c03FS(f failer, cfg world.Cfg, c c03Case) {
-	w := c03World(f, cfg)
+	w := c03WorldOpts(f, cfg, c.TapeLike)
 	defer func() { os.RemoveAll(w.Opts.Dir) }()
 	defer func() { w.Close() }()
 	content := hist.Bytes(c.Size, c.Dist, c.Seed)
@@ -354,6 +364,12 @@ func c03Run(f failer, cfg world.Cfg, c c03Case) {
 		sizeClass = "size:multi-record"
 	}
 	live.S.Class("layer:" + c.Layer)
+	if c.FileSrc && c.Layer == "ops" {
+		live.S.Class("source:os.File")
+	}
+	if c.TapeLike {
+		live.S.Class("drive:tape-like-writer")
+	}
 	live.S.Class(sizeClass)
 	live.S.Class(fmt.Sprintf("dist:%d", c.Dist))
 	live.S.Class(fmt.Sprintf("rs:%d", cfg.RecordSize))
@@ -390,6 +406,17 @@ func TestC03(t *testing.T) {
 		c.Seed = rapid.Uint64Range(0, 1<<20).Draw(t, "seed")
 		c.Chunks = rapid.IntRange(1, 4).Draw(t, "chunks")
 		c.BadLevel = rapid.IntRange(0, 4).Draw(t, "bad_level") == 0
+		c.FileSrc = rapid.Bool().Draw(t, "file_source")
+		if c.Layer != "codec" && rapid.IntRange(0, 4).Draw(t, "tape_like") == 0 {
+			c.TapeLike = true
+			cfg = tapeLikeCfg(cfg)
+		}
+		if guard("F-29") && cfg.Encryption == "pgp" && cfg.Signature != "" && (c.FileSrc || c.TapeLike) {
+			// finding F-29: the two passes chunk an *os.File source differently (32 KiB vs the
+			// signer's tee, or vs the record-sized buffer of the tape write path)
+			c.FileSrc, c.TapeLike = false, false
+			live.S.Exclude("F-29")
+		}
 		c03Run(t, cfg, c)
 	})
 }
